@@ -153,7 +153,7 @@ class PF(EKF):
 
         n = x.size(-1)
         xp = self.generate_particles(x, n * P)
-        xs, _ = self.model(xp, u)
+        xs = self.model.state_transition(xp, u, t)
         ye = self.model.observation(xs, u, t)
         q = self.relative_likelihood(y, ye, R)
         xr = self.resample_particles(q, xs)
